@@ -7,6 +7,51 @@ HOOK_COMMITS = ["db387c4"]
 
 # id -> (level category, technique, level text, level note, design ref)
 CHECKS = {
+ "C01": ("translation_validation",
+         "translation validation with LLVM 14 as referee: llvm-as|llvm-dis reads the input and the printed output of every program; readings compared in canonical form (metadata renumbered, definitions sorted)",
+         "Programs: atom catalogue (every instruction/terminator/constant/type/attribute/metadata form), repo testdata, llvm-stress, clang corpus (C/C++, -O0..-O2, -g, x86_64/i686/msvc/aarch64+sve), generated modules (mgen), opt variants and LLVM-validated respellings. Unrepresentable constructs must yield errors. Evidence lists the constructs seen in faithfully translated modules.",
+         "LLVM 14.0.6 tools are the trusted reference; constructs LLVM normalises on both sides are invisible here (covered by C02/C04/C17). Inputs with s0x literals that LLVM and the type-width rule read differently are not judged.",
+         "DESIGN.md §4 C01"),
+ "C03": ("exploration",
+         "constructor-matrix monitor (print, llvm-as, re-parse, structural comparison) plus execution monitor: PRNG construction programs run under lli and compared with a reference evaluator of the same construction calls",
+         "All 66 instruction/terminator constructors and the constant/expression constructors over the operand-shape set, named and unnamed results; module-level builders; 160 (quick) / 4000 (thorough) executed programs over integer, floating-point, memory, vector, aggregate and control-flow constructors.",
+         "Reference evaluator: uint64/float32/float64 semantics for widths<=64; programs avoid undefined behaviour by construction; non-executable constructs are validity+re-parse only.",
+         "DESIGN.md §4 C03"),
+ "C05": ("fault_enumeration",
+         "fault injection on the token stream: every reference site redirected to an undefined identifier and every definition duplicated, one at a time; LLVM's rejection gates the fault; outcome of asm.ParseString judged",
+         "All sites of every atom and of generated modules (all sites when small, up to 60/400 PRNG sites otherwise) plus 27 handwritten fault forms; outcome must be (nil, error) without panic.",
+         "Only faults LLVM also rejects are judged; the undefined-attribute-group exception is thereby built in.",
+         "DESIGN.md §4 C05"),
+ "C06": ("exploration",
+         "reference-model monitor validated by LLVM: generated modules use every result at the type the generator's typing model predicts (llvm-as checks it); parser type, IR-recomputed type and re-parsed type compared with the prediction; constant-expression grid",
+         "250 (quick) / 6000 (thorough) generated modules covering all instruction kinds over int/fp/pointer/vector (fixed and scalable)/aggregate shapes, plus a grid of every constant-expression kind; kind x shape matrix in the evidence.",
+         "The typing model is trusted only on LLVM-accepted modules.",
+         "DESIGN.md §4 C06"),
+ "C07": ("exploration",
+         "reference-model monitor validated by LLVM over a getelementptr grid; five computations (parser instruction, parser constant expression, alias pre-resolution, ir.NewGetElementPtr, constant.NewGetElementPtr) plus direct gep.ResultType calls compared with the prediction",
+         "10 source element types x 6 bases x index lists of length 0-5 with all index forms (i1..i128, non-constant, zeroinitializer/splat/non-splat/undef/poison vectors, scalable, inrange, constant expressions); 1600 (quick) / 32000 (thorough) geps.",
+         "Prediction counts only when llvm-as accepted the use of the result at the predicted type.",
+         "DESIGN.md §4 C07"),
+ "C08": ("exploration",
+         "bounded-exhaustive shape enumeration with a numbering model validated by LLVM; bindings observed through sinks, IDs compared, renumbering idempotence, canonical comparison of the printed text",
+         "All function shapes of length<=3/4 over 12 items x parameter shapes x {explicit, implicit, mixed} numbering, all module shapes of length<=3/4 over named/unnamed {global, alias, ifunc, declaration, definition}, plus PRNG longer shapes.",
+         "LLVM 14 accepts only explicit numbers for unnamed globals.",
+         "DESIGN.md §4 C08"),
+ "C10": ("exploration",
+         "LLVM as bit oracle: llvm-as|llvm-dis printing of `K L` versus `K Ident(parse L)`; library re-parse compared by value, sign and NaN flag",
+         "All 65536 half patterns; structured boundary sets and PRNG patterns for float, double, x86_fp80, fp128, ppc_fp128 in hex and decimal spellings (122k literals quick, 244k thorough).",
+         "LLVM's printer is canonical per kind. Open findings: NaN payloads (all kinds), x86_fp80 unnormals, ppc_fp128 pairs (KNOWN_FINDINGS.txt).",
+         "DESIGN.md §4 C10"),
+ "C11": ("exploration",
+         "round-trip monitor over byte strings x 24 grammar positions: API -> print -> library parser (bytes, name-vs-ID) and LLVM (acceptance, re-print decoded); enc.* driven directly through the export hook",
+         "All single bytes, all strings of length<=3/4 over a hostile alphabet, numeric look-alikes, PRNG strings; 46k (position, string) pairs quick.",
+         "Strings LLVM forbids in a position are filtered by bisection on LLVM's verdict; all-digit type names are IDs by the API's convention.",
+         "DESIGN.md §4 C11"),
+ "C17": ("exploration",
+         "structural-invariant monitor with a side table: payload strings identify the intended target of every metadata reference; reference allocator for IDs; canonical comparison by LLVM; identity census on clang -g graphs",
+         "300 (quick) / 8000 (thorough) generated graphs (sparse IDs, cycles, forward refs, inline nodes, attachments, repeated named metadata) on the text side and the API side, plus the clang -g corpus and metadata atoms.",
+         "Specialised nodes are covered by the corpus and atoms (identity census), tuples by the generated graphs.",
+         "DESIGN.md §4 C17"),
  "C02": ("exploration",
          "differential self-comparison over executions: print(parse x) re-parsed and re-printed, object graphs compared by a reflection serialiser (identity-bearing objects in bijection, the rest by value)",
          "Every accepted input of the corpus (atoms, repo testdata, llvm-stress, generated modules) and five respellings of each (hex ints, hex floats, quoted names, comments, shuffled definitions) is printed, re-parsed and re-printed; the second print must equal the first byte for byte and the two object graphs must serialise identically.",
